@@ -3,7 +3,7 @@ import Driver.Util
 import Driver.ClusterStream
 /-
 stream tree (C08)
-  in   ops=<op>,...   op ::= rt<name> | rx<name> | ry<name> | sc<path>:<name> | ch<path> | st<path> | po<path> | ss<path> | cr<path> | hp<path> | rh<path> | tp<path>
+  in   ops=<op>,...   op ::= rt<name> | rx<name> | ry<name> | sc<path>:<name> | ch<path> | st<path> | po<path> | ss<path> | cr<path> | hp<path> | rh<path> | tp<path> | zs<path>
        (a path is dot separated: r.a.b)
   impl ok | spawned=<id> | children=<ids> parent=<id|-> | done order=X:<path>:<registered>,... | HANG order=... | held | released | skip
 The order in which siblings are shut down is Go map order: the model column is compared with a
@@ -80,6 +80,9 @@ def treeCase (inp impl : String) : CaseOut :=
         let cs := sortStrs ((childrenOf st.live p).map treeId)
         let par := if p.length ≤ 1 then "-" else treeId p.dropLast
         plain st ("children=" ++ String.intercalate "+" cs ++ " parent=" ++ par) (if cs.isEmpty then "children.none" else "children.some")
+      -- zs: the node's Stopped handler becomes slow (1.3 s): no effect on what must happen, only on how long it takes
+      else if kind = "zs" then
+        if st.live.contains (parsePath arg) then plain st "slow" "slow-stopped-handler" else plain st "skip" "skip"
       else if kind = "hp" then
         let p := parsePath arg
         if st.live.contains p then plain { st with pilled := p :: st.pilled } "held" "hold-with-pill" else plain st "skip" "skip"
@@ -89,12 +92,12 @@ def treeCase (inp impl : String) : CaseOut :=
           -- the held node handles its own pill now and goes, with its subtree
           plain { st with live := stopAt st.live p, pilled := st.pilled.erase p, crashed := st.crashed.filter (fun q => !(q = p || below q p)) } "released" "release"
         else plain st "skip" "skip"
-      else if kind = "st" || kind = "po" || kind = "ss" || kind = "cr" || kind = "tp" then
+      else if kind = "st" || kind = "po" || kind = "ss" || kind = "cr" || kind = "tp" || kind = "tq" then
         let p := parsePath arg
         if !st.live.contains p then plain st "skip" "skip" else
         -- tp: the parent shuts down and, while it waits for a slow child, a third party stops a sibling: needs
         -- two children and nothing held below; the outcome is that of any other shutdown of the subtree
-        if kind = "tp" && ((childrenOf st.live p).length < 2 || st.pilled.any fun h => h = p || below h p) then plain st "skip" "skip" else
+        if (kind = "tp" || kind = "tq") && ((childrenOf st.live p).length < 2 || st.pilled.any fun h => h = p || below h p) then plain st "skip" "skip" else
         let sub := subtreeOf st.live p
         let blocked := st.pilled.any fun h => below h p
         -- what the implementation printed
